@@ -88,6 +88,12 @@ fn run_case(ctx: &mut Ctx, c: &Case, class: &str) {
         stdout: Redirection::None,
         ..Default::default()
     };
+    // a third of the launches go through a clone of the configuration: a clone must describe the same command
+    let via_clone = c.argv.len() % 3 == 1;
+    let config = if via_clone { config.try_clone().expect("try_clone") } else { config };
+    if via_clone {
+        ctx.count("launches_through_a_cloned_config", 1);
+    }
     let m = run::monitored(|| Popen::create(&argv, config));
     let evs = m.events();
     let wit = |extra: J| J::obj().set("case", describe(c)).set("events", J::arr_s(&ilog::fmt_tail(&evs, 30))).set("detail", extra);
